@@ -182,7 +182,7 @@ def run(ctx):
             hist_all[k] = hist_all.get(k, 0) + v
         for cid, c in cases.items():
             # non-trivial: non-empty key and pnum > 1 for hashes, key list with >= 2 keys for merges
-            if (c[0] == "H" and c[1] != "-" and c[2] not in ("0", "1")) or (c[0] in ("G", "D", "P") and "," in c[-1]) or c[0] in ("X", "R", "L", "E", "Q", "S", "T", "B", "N"):
+            if (c[0] == "H" and c[1] != "-" and c[2] not in ("0", "1")) or (c[0] in ("G", "D", "P") and "," in c[-1]) or c[0] in ("X", "R", "L", "E", "Q", "S", "T", "B", "N", "U"):
                 distinct.add(vlib.case_hash("\t".join(c)))
         ids = list(cases.keys())
         for cid in ids[:2] + ids[-2:]:
